@@ -747,6 +747,10 @@ def s_default(vm, st, callee, args, dest, ret_bb, m):
         return done(vm, st, dest, ret_bb, none())
     if t.startswith('<bool '):
         return done(vm, st, dest, ret_bb, mk_bool(False))
+    mi = re.match(r'^<([ui](8|16|32|64|size)) as', t)
+    if mi:
+        from vm import INT_W
+        return done(vm, st, dest, ret_bb, bv(0, INT_W[mi.group(1)]))
     if t.startswith('<std::string::String ') or t.startswith('<String '):
         return done(vm, st, dest, ret_bb, StrV(''))
     raise Unsupported(f'Default for {callee}')
@@ -984,6 +988,17 @@ def s_string_push_str(vm, st, callee, args, dest, ret_bb, m):
         new = StrV(cur.s + add.s)
     else:
         new = StrV(z3.Concat(cur.z(), add.z()))
+    vm.store(st, args[0], new)
+    return done(vm, st, dest, ret_bb, UNIT)
+
+
+def s_string_push(vm, st, callee, args, dest, ret_bb, m):
+    cur = vm.load(st, args[0])
+    ch = z3.simplify(args[1]) if z3.is_expr(args[1]) else args[1]
+    if not (z3.is_bv_value(ch)):
+        raise Unsupported('String::push of a symbolic char')
+    c = chr(ch.as_long())
+    new = StrV(cur.s + c) if isinstance(cur.s, str) else StrV(z3.Concat(cur.z(), z3.StringVal(c)))
     vm.store(st, args[0], new)
     return done(vm, st, dest, ret_bb, UNIT)
 
@@ -1360,7 +1375,7 @@ TABLE = [
     (r'^BTreeMap::<.*>::get::<', s_map_get),
     (r'^BTreeMap::<.*>::insert$', s_map_insert),
     (r'^BTreeMap::<.*>::new$', s_map_new),
-    (r'^<(Vec|std::vec::Vec|BTreeMap|std::collections::BTreeMap|BTreeSet|std::collections::BTreeSet|Option|std::option::Option|bool|String|std::string::String)[< ].* as (std::default::)?Default>::default$', s_default),
+    (r'^<(Vec|std::vec::Vec|BTreeMap|std::collections::BTreeMap|BTreeSet|std::collections::BTreeSet|Option|std::option::Option|bool|String|std::string::String|[ui](8|16|32|64|size))\b.* as (std::default::)?Default>::default$', s_default),
     (r'^Option::<.*>::as_mut$', s_opt_as_mut),
     (r'^<<T as Text<\'_>>::Value as AsRef<str>>::as_ref$', s_deref_id),
     (r'^<(Vec<.*>|(std::string::)?String|Cow<.*>|&.*|std::boxed::Box<.*>) as (std::ops::)?(__)?Deref(Mut)?>::deref(_mut)?$', s_deref_id),
@@ -1395,6 +1410,7 @@ TABLE = [
     (r'^<str as heck::ToUpperCamelCase>::to_upper_camel_case$|^<std::string::String as heck::ToUpperCamelCase>', uf_str('to_upper_camel_case')),
     (r'^core::str::<impl str>::starts_with::<&str>$', s_str_starts_with),
     (r'^std::string::String::push_str$', s_string_push_str),
+    (r'^std::string::String::push$', s_string_push),
     (r'^(std::|alloc::)?slice::<impl \[(std::string::String|&str)\]>::join::<&str>$', s_str_join),
     (r'^std::string::String::reserve$', s_unit),
     (r'^core::str::<impl str>::len$', s_str_len),
